@@ -192,6 +192,12 @@ class PulseTemplate(Serializable):
                     # are represented with integers
                     parameters[parameter_name] = to_int(value)
 
+                elif isinstance(value, numpy.integer) and value.dtype != numpy.int64:
+                    # small / unsigned numpy integers wrap around inside the expressions (numpy.uint16(0) in 'p - 2'
+                    # evaluates to 65534, numpy.int8(100) in 'p + 100' to -56): treat them like python integers
+                    value = int(value)
+                    parameters[parameter_name] = to_int(value) if -2**63 <= value < 2**63 else value
+
                 elif not isinstance(value, Number):
                     parameters[parameter_name] = Expression(value).evaluate_numeric()
 
